@@ -84,6 +84,10 @@ def items_for(mode, tier):
             if mode == 'out' and mname.startswith('get_tracefield'):
                 continue
             items.append(mk_item(mname + '_2d', bs, rate, (2, 2), mode, tier, dict(stored=(1, 115, 189))))
+    # irregular 3D files (population mask from the stored inline-number array): ordinals of traces and headers
+    for nh in ((1, 2) if tier == 'quick' else (1, 2, 3)):
+        for mname in ['get_trace_irregular', 'gen_trace_header_irregular']:
+            items.append(mk_item(mname, (4, 4, 256), 8, (2, 1, 1), mode, tier, dict(holes=nh, stored=(73, 189, 193), dimcap=1)))
     for (bs, rate) in lay2:
         for nb in ([(2, 2)] if tier == 'quick' else [(1, 1), (2, 2), (3, 2), (2, 3)]):
             if nb[1] * bs[2] > 2 ** 17:
@@ -106,6 +110,8 @@ def mk_item(mname, bs, rate, nb, mode, tier, opts=None):
             desc += '|%s=%s' % (k, opts[k])
     if 'stored' in opts:
         desc += '|stored=%s|version=%s' % ('+'.join(map(str, opts['stored'])), opts['version'])
+    if 'holes' in opts:
+        desc += '|holes=%d' % opts['holes']
     it = Item(desc, lambda: readers.item_fn(mname, bs, rate, nb, mode, opts), timeout_s=150 if tier == 'quick' else 400,
               solver_ms=10000 if tier == 'quick' else 60000)
     it.meta = dict(method=mname, bs=list(bs), rate=rate, nb=list(nb), mode=mode, opts={k: v for k, v in opts.items() if k != 'after_call'})
@@ -115,7 +121,7 @@ def mk_item(mname, bs, rate, nb, mode, tier, opts=None):
 def replay_candidate(it, c):
     meta = it.meta
     req = dict(kind='reader', method=meta['method'], bs=meta['bs'], rate=meta['rate'], model=c['model'],
-               version=meta['opts'].get('version'), stored=list(meta['opts'].get('stored', ())), il_step=meta['opts'].get('il_step', 1), xl_step=meta['opts'].get('xl_step', 1))
+               version=meta['opts'].get('version'), stored=list(meta['opts'].get('stored', ())), holes=meta['opts'].get('holes'), il_step=meta['opts'].get('il_step', 1), xl_step=meta['opts'].get('xl_step', 1))
     ax = meta['opts'].get('axes')
     if isinstance(ax, (tuple, list)):
         req['il0'], req['xl0'] = ax
